@@ -46,9 +46,13 @@ Section Frag.
 Variable pv : N.      (* the id of the external `print` *)
 Variable sv : N.      (* the id of `start` *)
 Variable bound : N.   (* |r_vars| + 1 *)
+Variable fl : list (N * nat).   (* the top-level functions that can be called here, with their arities *)
+
+Definition fun_arity (f : N) : option nat :=
+  match find (fun fa => fst fa =? f) fl with Some fa => Some (snd fa) | None => None end.
 
 Definition fresh_id (sc : list N) (v : N) : bool :=
-  negb (memN v sc) && negb (v =? pv) && negb (v =? sv) && (v <? bound).
+  negb (memN v sc) && negb (v =? pv) && negb (v =? sv) && (v <? bound) && negb (memN v (map fst fl)).
 
 Definition assign_op (op : binop) : bool :=
   match op with Nop | Add | Sub | Mul => true | _ => false end.
@@ -66,7 +70,14 @@ Fixpoint frag_expr (k : nat) (sc : list N) (x : expr) {struct k} : bool :=
       | ERead v _ => memN v sc
       | EBinOp op a b _ => frag_binop op && frag_expr k sc a && frag_expr k sc b
       | EUniOp _ a _ => frag_expr k sc a
-      | ECall (ERead f _) [a] _ => (f =? pv) && negb (memN pv sc) && frag_expr k sc a      (* print(a) *)
+      | ECall (ERead f _) args _ =>
+          if f =? pv then
+            match args with [a] => negb (memN pv sc) && frag_expr k sc a | _ => false end      (* print(a) *)
+          else                                                                              (* f(a1, ..., an) *)
+            match fun_arity f with
+            | Some ar => Nat.eqb (length args) ar && forallb (frag_expr k sc) args
+            | None => false
+            end
       | EIf branches _ => frag_branches k sc branches
       | _ => false
       end
@@ -137,6 +148,8 @@ Definition is_plain_def (s : stmt) : bool :=
   | _ => false
   end.
 
+Definition is_def (s : stmt) : bool := match s with SDefinition _ _ _ _ _ _ => true | _ => false end.
+
 Fixpoint split_last {A} (l : list A) : option (list A * A) :=
   match l with
   | [] => None
@@ -146,19 +159,54 @@ Fixpoint split_last {A} (l : list A) : option (list A * A) :=
               end
   end.
 
-(* STAGE 3a (stage 2 + top-level global definitions):
-   the outer statements are  `print` external ; global definitions g :: e (e not a function) ; `start :: fn do ... end`
-   in this order, start last.  The value of a global is an expression of the fragment over the earlier globals.
-   The body of start (and the branches of if-expressions anywhere) consists of
+Definition param_ids (params : list (string * N * span * ty)) : list N := map (fun p => snd (fst (fst p))) params.
+
+(* the parameters of a function: new ids, pairwise different *)
+Fixpoint params_ok (pv sv bound : N) (fl : list (N * nat)) (sc : list N) (ps : list N) : bool :=
+  match ps with
+  | [] => true
+  | p :: ps' => fresh_id pv sv bound fl sc p && params_ok pv sv bound fl (p :: sc) ps'
+  end.
+
+(* the outer statements between `print` and `start`: global values and functions.
+   scg = the global values so far, fl = the functions so far; a function sees the earlier globals and
+   functions and itself (recursion) *)
+Fixpoint frag_items (pv sv bound : N) (k : nat) (scg : list N) (fl : list (N * nat)) (items : list stmt)
+  : option (list N * list (N * nat)) :=
+  match items with
+  | [] => Some (scg, fl)
+  | s :: rest =>
+      match s with
+      | SDefinition _ fv _ _ (EFunction _ params _ body _ _) _ =>
+          let ps := param_ids params in
+          let fl' := (fv, length ps) :: fl in
+          if fresh_id pv sv bound fl scg fv && params_ok pv sv bound fl' scg ps
+             && is_some (frag_stmts pv sv bound fl' k (rev ps ++ scg) body)
+          then frag_items pv sv bound k scg fl' rest else None
+      | SDefinition _ _ _ _ _ _ =>
+          match frag_stmt pv sv bound fl k scg s with
+          | Some scg' => frag_items pv sv bound k scg' fl rest
+          | None => None
+          end
+      | _ => None
+      end
+  end.
+
+(* STAGE 3b (stage 3a + top-level functions and their calls, recursion included):
+   the outer statements are  `print` external ; global definitions ; `start :: fn do ... end`  in this order, start
+   last.  A global definition is  g :: e  (e an expression of the fragment over the earlier globals and functions) or
+   f :: fn p1: T1, ..., pn: Tn -> T do ... end  (a function: its body sees the earlier globals, the earlier functions,
+   itself and its parameters; its value is the value of its last statement if that is an expression, nil otherwise).
+   The body of a function or of start (and the branches of if-expressions anywhere) consists of
      - definitions (constant or mutable) of int/bool-valued expressions, expression statements, nested blocks,
-     - assignments  x = e, x += e, x -= e, x *= e  to variables in scope (locals and globals),
+     - assignments  x = e, x += e, x -= e, x *= e  to variables in scope (parameters, locals and global values),
      - loops `loop c do ... end` with break and continue; the condition c contains no if-expression
        (noexit_expr; since /repo fcfe8d3 the type checker rejects break/continue in a loop condition, so
        this is implied by acceptance for what matters: no break/continue can leave the condition);
    expressions are int and bool literals, reads of variables in scope, + - *, the six comparisons,
-   <=> (assert-equal), and/or/not, unary minus, calls of print with one argument, and if/elif/else
-   expressions and statements whose branches are statement lists.
-   NOT yet in the fragment (stage 3b/4): user functions and their calls, ret, closures, blobs, tuples, lists,
+   <=> (assert-equal), and/or/not, unary minus, calls print(e), calls f(e1, ..., en) of top-level functions by
+   name, and if/elif/else expressions and statements whose branches are statement lists.
+   NOT in the fragment: `ret`, functions as values (closures, lambdas, nested functions), blobs, tuples, lists,
    enums/case, floats, strings, division. *)
 Definition frag (k : nat) (r : resolved) : bool :=
   let bound := N.of_nat (length (r_vars r)) + 1 in
@@ -169,9 +217,8 @@ Definition frag (k : nat) (r : resolved) : bool :=
           String.eqb name "print"
           && match find_start (r_vars r) with Some s => s =? sv | None => false end
           && negb (pv =? sv) && (pv <? bound) && (sv <? bound)
-          && forallb is_plain_def gs
-          && match frag_stmts pv sv bound k [] gs with
-             | Some scg => is_some (frag_stmts pv sv bound k scg body)
+          && match frag_items pv sv bound k [] [] gs with
+             | Some (scg, fl) => is_some (frag_stmts pv sv bound fl k scg body)
              | None => false
              end
       | _ => false
